@@ -34,7 +34,7 @@ ASSUMPTIONS = ['not judged: then-steps naming a state that does not exist, map_a
 THEN_KINDS = ['state entered', 'state not entered', 'state exited', 'state not exited', 'state active', 'state not active',
               'event fired', 'event fired with', 'event fired table', 'event not fired', 'no event fired', 'variable equals',
               'variable not equal', 'expression holds', 'expression not hold', 'final', 'not final']
-REQUIRED_COUNTERS = ['mutable_literal_parameters', 'cross_event_parameter_mix', 'features_with_background', 'given_step_after_when', 'feature_files', 'scenarios', 'then_steps_checked', 'given_when_steps_checked', 'testing_predicate_checks',
+REQUIRED_COUNTERS = ['long_step_scenarios', 'runs_with_two_feature_files', 'mutable_literal_parameters', 'cross_event_parameter_mix', 'features_with_background', 'given_step_after_when', 'feature_files', 'scenarios', 'then_steps_checked', 'given_when_steps_checked', 'testing_predicate_checks',
                      'blocks_without_macro_step', 'same_event_twice_in_step'] + \
     ['then_%s_%s' % (k.replace(' ', '_'), v) for k in THEN_KINDS for v in ('true', 'false')]
 
@@ -393,12 +393,73 @@ import sys
 sys.path.insert(0, %(repo)r)
 from sismic.io import import_from_yaml
 from sismic.bdd import execute_bdd
-sys.exit(execute_bdd(import_from_yaml(filepath=%(chart)r), [%(feature)r],
+sys.exit(execute_bdd(import_from_yaml(filepath=%(chart)r), %(features)r,
                      behave_parameters=['-f', 'json', '-o', %(out)r, '--no-summary', '-q', '--no-color']))
 '''
 
 
+LONG_CHART = '''statechart:
+  name: long
+  preamble: n = 0
+  root state:
+    name: root
+    initial: idle
+    states:
+      - name: idle
+        transitions:
+          - event: start
+            target: counting
+            action: send('tick')
+      - name: counting
+        transitions:
+          - event: tick
+            guard: n < %(N)d
+            action: |
+              n = n + 1
+              send('tick')
+          - event: tick
+            guard: n >= %(N)d
+            target: done
+      - name: done
+'''
+
+
+def long_run_case(acc, rnd):
+    """One 'when' step that takes many macro steps (a chart that keeps sending itself an event): the step is over when the
+    statechart has nothing left to do, however long that takes."""
+    N = rnd.choice((300, 1100, 1500, 2500))
+    yaml_text = LONG_CHART % dict(N=N)
+    ftext = ('Feature: long\n\n  Scenario: count\n    When I send event start\n    Then variable n equals %d\n'
+             '    And state done is active\n    And state counting is exited\n\n  Scenario: nothing left for the next step\n'
+             '    Given I send event start\n    When I do nothing\n    Then state done is not entered\n    And variable n equals %d\n' % (N, N))
+    os.makedirs(os.path.join(VERIF_DIR, '.work'), exist_ok=True)
+    d = tempfile.mkdtemp(prefix='c19-', dir=os.path.join(VERIF_DIR, '.work'))
+    try:
+        chart_fp, feat_fp, out_fp = os.path.join(d, 'chart.yaml'), os.path.join(d, 'f.feature'), os.path.join(d, 'out.json')
+        open(chart_fp, 'w').write(yaml_text)
+        open(feat_fp, 'w').write(ftext)
+        code = CHILD % dict(repo=REPO, chart=chart_fp, features=[feat_fp], out=out_fp)
+        try:
+            p = subprocess.run([PYTHON, '-B', '-c', code], stdout=subprocess.PIPE, stderr=subprocess.PIPE, text=True, timeout=600,
+                               cwd=d, env=dict(os.environ, PYTHONPATH=REPO))
+            rep = json.load(open(out_fp))
+        except Exception as e:      # noqa
+            acc.note_inconclusive('long-run case: no report from behave (%s)' % (e,))
+            return
+    finally:
+        shutil.rmtree(d, ignore_errors=True)
+    acc.count('long_step_scenarios')
+    for el in [e for e in rep[0]['elements'] if e['type'] == 'scenario']:
+        st = [(x['name'], x.get('result', {}).get('status')) for x in el['steps']]
+        if any(status != 'passed' for _n, status in st):
+            acc.violation('C19:unsound-verdict', 'a when step that takes %d macro steps: scenario %r reported %r; every assertion is true '
+                          'on a plain interpreter executed as documented' % (N + 2, el['name'], st), dict(chart_yaml=yaml_text, feature=ftext))
+            return
+
+
 def run_case(acc, rnd, tier, case):
+    if case % 16 == 9:
+        return long_run_case(acc, rnd)
     ch = make_chart(rnd)
     coder = RealCoder()
     yaml_text = build.dump_yaml(build.to_document(ch, coder=coder))
@@ -410,33 +471,48 @@ def run_case(acc, rnd, tier, case):
             background.append(('given', rnd.choice(['I send event %s' % rnd.choice(ch['events']), 'I wait 1 second',
                                                     'I send event %s with p=1' % rnd.choice(ch['events'])]), None))
         acc.count('features_with_background')
+    # one run of execute_bdd may be given several feature files; their scenarios may well have the same names
+    two_files = rnd.random() < 0.3
+    split = 12 if two_files else 10 ** 6
+    files = [[], []]
     gen_orc = Oracle(yaml_text, scenarios, acc, background)
     tries = 0
     while len(scenarios) < nscn and tries < 4 * nscn:
         tries += 1
-        gen_orc.scenarios = dict(scenarios)
+        cur = files[0] if len(scenarios) < split else files[1]
+        gen_orc.scenarios = dict(cur)
         try:
-            sc_steps = gen_scenario(rnd, ch, len(scenarios), [n for n, _ in scenarios][-5:], gen_orc)
+            sc_steps = gen_scenario(rnd, ch, len(scenarios), [n for n, _ in cur][-5:], gen_orc)
         except Exception:       # noqa – the generated chart is non-deterministic / conflicting under this history: not a BDD matter
             acc.count('scenarios_discarded_chart_error')
             continue
         if any(st[0] == 'then' for st in sc_steps):
-            scenarios.append(('s%d' % len(scenarios), sc_steps))
-    if len(scenarios) < 5:
+            cur.append(('s%d' % len(cur), sc_steps))
+            scenarios.append(cur[-1])
+    if len(scenarios) < 5 or (two_files and len(files[1]) < 3):
         acc.count('cases_discarded')
         return
+    if not two_files:
+        files = [files[0]]
+    else:
+        acc.count('runs_with_two_feature_files')
     if any(s.get('twice') for t in ch['transitions'] for s in t['sends']):
         acc.count('same_event_twice_in_step')
     os.makedirs(os.path.join(VERIF_DIR, '.work'), exist_ok=True)
     d = tempfile.mkdtemp(prefix='c19-', dir=os.path.join(VERIF_DIR, '.work'))
     try:
         chart_fp = os.path.join(d, 'chart.yaml')
-        feat_fp = os.path.join(d, 'f.feature')
         out_fp = os.path.join(d, 'out.json')
         open(chart_fp, 'w').write(yaml_text)
-        ftext = feature_text('f%d' % case, scenarios, background)
-        open(feat_fp, 'w').write(ftext)
-        code = CHILD % dict(repo=REPO, chart=chart_fp, feature=feat_fp, out=out_fp)
+        feats = []
+        ftexts = []
+        for fi, fscn in enumerate(files):
+            fp = os.path.join(d, 'f%d.feature' % fi)
+            ftexts.append(feature_text('f%d_%d' % (case, fi), fscn, background))
+            open(fp, 'w').write(ftexts[-1])
+            feats.append(fp)
+        ftext = ftexts[0]
+        code = CHILD % dict(repo=REPO, chart=chart_fp, features=feats, out=out_fp)
         env = dict(os.environ, PYTHONPATH=REPO)
         try:
             p = subprocess.run([PYTHON, '-B', '-c', code], stdout=subprocess.PIPE, stderr=subprocess.PIPE, text=True, timeout=600,
@@ -451,8 +527,19 @@ def run_case(acc, rnd, tier, case):
             return
     finally:
         shutil.rmtree(d, ignore_errors=True)
+    if len(rep) != len(files):
+        acc.note_inconclusive('behave reported %d features, %d were written' % (len(rep), len(files)))
+        return
+    for fi, fscn in enumerate(files):
+        if not check_feature(acc, rnd, yaml_text, fscn, background, rep[fi], ftexts[fi]):
+            return
+    acc.sample(dict(scenario=[list(s[:3]) for s in scenarios[0][1]][:8]))
+    testing_predicates(acc, rnd)
+
+
+def check_feature(acc, rnd, yaml_text, scenarios, background, feature_report, ftext):
     acc.count('feature_files')
-    els = [e for e in rep[0]['elements'] if e['type'] == 'scenario']
+    els = [e for e in feature_report['elements'] if e['type'] == 'scenario']
     if len(els) != len(scenarios):
         acc.note_inconclusive('behave reported %d scenarios, %d were written' % (len(els), len(scenarios)))
         return
@@ -500,8 +587,7 @@ def run_case(acc, rnd, tier, case):
                 return
             if not e:
                 failed = True
-    acc.sample(dict(scenario=[list(s[:3]) for s in scenarios[0][1]][:8], statuses=[s.get('result', {}).get('status') for s in els[0]['steps']][:8]))
-    testing_predicates(acc, rnd)
+    return True
 
 
 def testing_predicates(acc, rnd):
